@@ -40,6 +40,8 @@ def log(*a):
 # ------------------------------------------------------------------------------------------
 _STR = r'"((?:[^"\\]|\\.)*)"'
 # not anchored: TLC's progress reporter writes from another thread and its text can land on the same line
+import itertools
+_RUN_SEQ = itertools.count()
 RE_TUPLE = re.compile(r'<<\s*"(CASE|REJECT|INFO|STAT)"\s*,\s*(' + _STR + r')\s*>>')
 
 
@@ -72,7 +74,7 @@ def run_tlc(area, module, cfg, workdir, *, workers=4, timeout=600, env=None, deq
             keep_lines=None, extra=None):
     """Runs TLC in spec/<area>. Returns TlcResult. Raises ToolError for tool-level failures."""
     sdir = os.path.join(SPEC, area)
-    meta = os.path.join(workdir, "tlc-%s-%s-%d" % (module, os.path.basename(cfg), int(time.time() * 1000) % 100000))
+    meta = os.path.join(workdir, "tlc-%s-%s-%d%04d" % (module, os.path.basename(cfg), int(time.time() * 1000) % 100000, next(_RUN_SEQ)))
     os.makedirs(meta, exist_ok=True)
     jopts = ["-XX:+UseParallelGC", "-Xmx" + xmx, "-Xss" + xss,
              "-DTLA-Library=" + os.path.join(SPEC, "common")]
@@ -97,7 +99,8 @@ def run_tlc(area, module, cfg, workdir, *, workers=4, timeout=600, env=None, deq
         e.update({k: str(v) for k, v in env.items()})
     t0 = time.time()
     res = TlcResult()
-    logf = os.path.join(workdir, "tlc-%s-%s.log" % (module, os.path.basename(cfg)))
+    # one log per run: trace validation runs several TLC processes of the same module and config side by side
+    logf = os.path.join(workdir, "tlc-%s-%s-%s.log" % (module, os.path.basename(cfg), os.path.basename(meta).rsplit("-", 1)[-1]))
     with open(logf, "w") as lf:
         try:
             p = subprocess.run(cmd, cwd=sdir, env=e, stdout=lf, stderr=subprocess.STDOUT, timeout=timeout)
